@@ -152,16 +152,36 @@ class _St:
     models = weakref.WeakKeyDictionary()   # Filter instance -> _FilterHistoryModel
 
 
+def _is_num(v):
+    return isinstance(v, (int, float, np.integer, np.floating)) and not isinstance(v, bool)
+
+
+def _differs(a, b, native):
+    """a != b; native=True: with Python/NumPy operator semantics (a Python float compared with
+    a np.float32 scalar is first rounded to single precision under NumPy >= 2), else exactly."""
+    from vmon.model import c03_filterspec as fs
+    if native or not (_is_num(a) and _is_num(b)):
+        return bool(a != b)
+    return not fs.bounds_equal(a, b)
+
+
 class _FilterHistoryModel:
-    """Executable defect model: what a Filter computes when the per-feature range masks are
-    only recomputed for features with a *changed key that is present in the current settings*
-    (or forced) - i.e. a removed range keeps its last mask (D02) - optionally with the bound
-    rounded to the precision of a float32/float16 feature (NumPy >= 2 comparison semantics
-    for Python scalars).  Variants: (stale, f32) in {(1,0), (0,1), (1,1)}."""
+    """Executable defect models (they predict the deviating `box` array from the history of
+    settings seen by one Filter instance):
+
+    * stale: the per-feature range mask is recomputed only for features with a changed key
+      *that is present in the current settings* (or forced), so a range whose two keys were
+      deleted keeps its last mask (D02);
+    * native: bounds are compared with NumPy >= 2 operator semantics instead of exactly: a
+      Python scalar bound is rounded to the dtype of a float32/float16 feature before the
+      comparison, and `min != max` / `changed since the last update` between a np.float32
+      value and a Python float are decided in single precision.
+
+    Two caches are simulated: (stale, exact arithmetic) and (stale, native arithmetic)."""
 
     def __init__(self):
         self.old = {}
-        self.box = {(1, 0): {}, (1, 1): {}}
+        self.box = {0: {}, 1: {}}          # native flag -> {feature: mask}
 
     def reset(self):
         self.old = {}
@@ -169,53 +189,57 @@ class _FilterHistoryModel:
             d.clear()
 
     @staticmethod
-    def _mask(arr, cfg, feat, f32):
+    def _mask(arr, cfg, feat, native):
         from vmon.model import c03_filterspec as fs
         n = len(arr)
+        arr = np.asarray(arr)
         kmin, kmax = feat + " min", feat + " max"
-        if kmin not in cfg or kmax not in cfg or cfg[kmin] == cfg[kmax]:
+        if kmin not in cfg or kmax not in cfg:
             return np.ones(n, dtype=bool)
         lo, hi = cfg[kmin], cfg[kmax]
-        if lo > hi:
-            lo, hi = hi, lo
-        arr = np.asarray(arr)
-        if f32 and arr.dtype.kind == "f" and arr.dtype.itemsize < 8 \
-                and isinstance(lo, (int, float)) and isinstance(hi, (int, float)) \
-                and not isinstance(lo, np.floating) and not isinstance(hi, np.floating):
-            with np.errstate(all="ignore"):
-                lo_r, hi_r = arr.dtype.type(lo), arr.dtype.type(hi)
-                return (lo_r <= arr) & (arr <= hi_r)
-        return fs.range_mask(arr, lo, hi)
+        if not native:
+            if fs.bounds_equal(lo, hi):
+                return np.ones(n, dtype=bool)
+            lo, hi = fs.bounds_sorted(lo, hi)
+            return fs.range_mask(arr, lo, hi)
+        with np.errstate(all="ignore"):
+            if not (lo != hi):
+                return np.ones(n, dtype=bool)
+            if lo > hi:
+                lo, hi = hi, lo
+            return np.asarray((lo <= arr) & (arr <= hi), dtype=bool)
 
     def update(self, cfg, force, data):
-        changed = [k for k in cfg if cfg[k] != self.old.get(k, None)]
-        feats = {k[:-4] for k in changed
-                 if isinstance(k, str) and (k.endswith(" min") or k.endswith(" max"))}
-        feats |= set(force or [])
-        for (stale, f32), cache in self.box.items():
+        for native, cache in self.box.items():
+            changed = [k for k in cfg if k not in self.old
+                       or _differs(cfg[k], self.old[k], native)]
+            feats = {k[:-4] for k in changed
+                     if isinstance(k, str) and (k.endswith(" min") or k.endswith(" max"))}
+            feats |= set(force or [])
             for f in feats:
                 if f in data:
-                    cache[f] = self._mask(data[f], cfg, f, f32)
+                    cache[f] = self._mask(data[f], cfg, f, native)
         self.old = copy.deepcopy(cfg)
 
-    def predicted_box(self, variant, cfg, data, n):
-        stale, f32 = variant
+    def predicted_box(self, stale, native, cfg, data, n):
         out = np.ones(n, dtype=bool)
         if stale:
-            for m in self.box[(1, f32)].values():
+            for m in self.box[native].values():
                 out &= m
         else:
             for f in data:
-                out &= self._mask(data[f], cfg, f, f32)
+                out &= self._mask(data[f], cfg, f, native)
         return out
 
-    def stale_features(self, cfg, data):
-        """features whose cached mask differs from the mask of the current settings"""
-        out = []
-        for f, m in self.box[(1, 0)].items():
-            if f in data and not np.array_equal(m, self._mask(data[f], cfg, f, 0)):
-                out.append(f)
-        return sorted(out)
+    def stale_features(self, cfg, data, native=0):
+        """{feature: kind} for features whose cached mask differs from the mask of the current
+        settings; kind 'removed' (both keys are gone) or 'present'"""
+        out = {}
+        for f, m in self.box[native].items():
+            if f in data and not np.array_equal(m, self._mask(data[f], cfg, f, native)):
+                gone = (f + " min") not in cfg and (f + " max") not in cfg
+                out[f] = "removed" if gone else "present"
+        return out
 
 
 def _poly_eval(px, py, pts):
@@ -317,7 +341,8 @@ def _judge_update(ctx, flt, rtdc_ds, force):
         model = _St.models[flt] = _FilterHistoryModel()
         ctx.count("filter_history_unknown")
     model.update(cfg, list(force or []), data)
-    summary = {"observed": observed, "tags": [], "untagged": 0, "skipped": False}
+    summary = {"observed": observed, "tags": [], "untagged": 0, "skipped": False,
+               "history_dependent": set()}
     _St.last = summary
     try:
         polys = _polygon_registry(set(cfg.get("polygon filters", [])))
@@ -342,14 +367,17 @@ def _judge_update(ctx, flt, rtdc_ds, force):
             ctx.count("applies_where_limit_cuts")
     if not manual.all():
         ctx.count("applies_with_manual_exclusions")
-    stale = model.stale_features(cfg, data)
+    stale = model.stale_features(cfg, data, 0)
+    stale_native = model.stale_features(cfg, data, 1)
+    summary["history_dependent"] = ({MECH_D02} if "removed" in stale.values() else set()) | \
+        ({MECH_F32} if "present" in stale_native.values() else set())
     if stale:
         ctx.count("applies_with_stale_cached_range(defect_model)")
     results = fs.judge(observed, spec)
     bad = [m for m, (ok, _d) in results.items() if not ok]
     variant_fit = None
     if bad:
-        variant_fit = _explain(model, cfg, data, n, observed, spec, stale)
+        variant_fit = _explain(model, cfg, data, n, observed, spec)
     for mon, (ok, detail) in results.items():
         finding = None
         if not ok and variant_fit is not None and mon in variant_fit["monitors"]:
@@ -367,21 +395,26 @@ def _judge_update(ctx, flt, rtdc_ds, force):
                            f"the current settings: {detail}"))
 
 
-def _explain(model, cfg, data, n, observed, spec, stale):
-    """Try the defect-model variants (stale cache, single-precision bound, both); returns
-    {"finding", "monitors", "variant"} for the first variant that predicts a deviation from the
-    spec AND reproduces the observed box array exactly (and, through it, the observed `all`)."""
-    removed_only = bool(stale) and not any((f + " min") in cfg or (f + " max") in cfg
-                                           for f in stale)
-    for variant, finding in (((1, 0), MECH_D02), ((0, 1), MECH_F32), ((1, 1), MECH_D02)):
-        if variant[0] and not removed_only:
-            continue                      # D02 is about ranges whose two keys are gone
-        pbox = model.predicted_box(variant, cfg, data, n)
+def _explain(model, cfg, data, n, observed, spec):
+    """Try the defect models; returns {"finding", "monitors", "variant"} for the first one that
+    predicts a deviation from the spec AND reproduces the observed box array exactly (and,
+    through it, the observed `all`)."""
+    for stale, native in ((1, 0), (0, 1), (1, 1)):
+        if stale:
+            kinds = model.stale_features(cfg, data, native)
+            if not kinds:
+                continue
+            if not native and any(k != "removed" for k in kinds.values()):
+                continue                  # D02 is about ranges whose two keys are gone
+            finding = MECH_D02 if "removed" in kinds.values() else MECH_F32
+        else:
+            finding = MECH_F32
+        pbox = model.predicted_box(stale, native, cfg, data, n)
         if np.array_equal(pbox, spec["box"]):
-            continue                      # this variant predicts no deviation at all
+            continue                      # this model predicts no deviation at all
         if not np.array_equal(pbox, observed["box"]):
             continue
-        return _fit(variant, finding, pbox, observed, spec)
+        return _fit([stale, native], finding, pbox, observed, spec)
     return None
 
 
@@ -420,7 +453,7 @@ def _witness(cfg, polys, manual, observed, spec, detail, force, stale, variant_f
                               "limit": spec["limit"]},
             "defect_model": {"stale_features": stale, "fit": None if variant_fit is None else
                              {"finding": variant_fit["finding"],
-                              "variant_stale_f32": variant_fit["variant"]}},
+                              "variant_stale_native": variant_fit["variant"]}},
             "history_tail": (_St.history or [])[-14:], "history_len": len(_St.history or [])}
 
 
@@ -672,7 +705,11 @@ class Case:
     def stored(self, key, want):
         """driver-level: the setting the operation wrote is the setting that is in force"""
         got = self.cfg[key] if key in self.cfg else None
-        ok = got == want and type(got) is type(want)
+        if _is_num(want) and _is_num(got):
+            from vmon.model import c03_filterspec as fs
+            ok = fs.bounds_equal(got, want)          # exact value, whatever the numeric type
+        else:
+            ok = got == want and type(got) is type(want)
         finding = None
         if not ok and key == "polygon filters" and isinstance(got, list) \
                 and got == [i for i in want if i]:
@@ -794,6 +831,7 @@ class Case:
             return
         first = self.snapshot()
         tags_before = set(obs["tags"])
+        hist_dep = set(obs["history_dependent"])
         untagged_before = obs["untagged"]
         obs2 = self.apply(ds=self.ds, label="reapply")
         if obs2 is not None:
@@ -827,11 +865,18 @@ class Case:
                 third = self.snapshot(fresh)
                 differs = [k for k in first if not np.array_equal(first[k], third[k])]
                 finding = None
-                if differs and tags_before and not untagged_before and not obs3["tags"] \
-                        and not obs3["untagged"] and len(tags_before) == 1:
-                    # the history dataset deviates from the spec exactly as a defect model
-                    # predicts, the fresh one agrees with the spec
-                    finding = next(iter(tags_before))
+                if "box" in differs and not ({"polygon", "invalid"} & set(differs)) \
+                        and not untagged_before and not obs3["untagged"]:
+                    # Only the range part differs, and both datasets are either equal to the
+                    # spec or deviate from it exactly as a defect model predicts (a stale mask
+                    # may coincide with the spec while the fresh dataset shows the
+                    # single-precision deviation).  The history-dependent mechanism explains
+                    # the difference between the two.
+                    cand = hist_dep | tags_before | set(obs3["tags"])
+                    if MECH_D02 in (hist_dep | tags_before):
+                        finding = MECH_D02
+                    elif MECH_F32 in cand:
+                        finding = MECH_F32
                 ctx.check("fresh_same", not differs,
                           lambda: {"dataset": _St.desc, "differs": differs,
                                    "settings": copy.deepcopy(dict(self.cfg.data)),
